@@ -580,7 +580,6 @@ static int k_pipe(int p[2]) {
 }
 static int k_socket(int d, int t, int pr) {
   (void)d;
-  (void)t;
   (void)pr;
   sim_sched_point(K_KERNEL);
   int fd = kalloc_fd();
@@ -590,11 +589,11 @@ static int k_socket(int d, int t, int pr) {
   }
   K[fd].kind = KF_UNCONN;
   K[fd].listener_fd = -1;
+  if (t & SOCK_NONBLOCK) K[fd].nonblock = 1;
   return fd;
 }
 static int k_socketpair(int d, int t, int pr, int sv[2]) {
   (void)d;
-  (void)t;
   (void)pr;
   sim_sched_point(K_KERNEL);
   int a = kalloc_fd();
@@ -610,6 +609,7 @@ static int k_socketpair(int d, int t, int pr, int sv[2]) {
     return -1;
   }
   K[b].kind = KF_SOCK;
+  if (t & SOCK_NONBLOCK) K[a].nonblock = K[b].nonblock = 1;
   conn_t* c = sim_internal_alloc(sizeof *c);
   memset(c, 0, offsetof(conn_t, c2s.buf));
   stream_t *x = new_stream(0), *y = new_stream(0);
